@@ -44,6 +44,17 @@ let () = run_protocol [
        | Ok (s, d) -> VT (VZ 0 :: show_state s @ show_dict d)
        | Err e -> VT [VZ (int_of_nat e)])
     | _ -> failwith "arity");
+  (* fit_trace: head | evs | state  ->  one row per evaluation: varraw len nug opt... anis... *)
+  "fit_trace", (function
+    | [fx; blo; bhi; bloc; bhic; dim; latlon; rescale; nopt; sidx; skind; sval; sillk; sillv; ak; av; isdir; evs;
+       vr; l; n; opt; an] ->
+      let c = mk_cfg (gv blo) (gv bhi) (gil bloc) (gil bhic) (gn dim) (gb latlon) (gf rescale) in
+      let evs = (match evs with VM m -> List.filter (fun r -> r <> []) m | _ -> failwith "matrix expected") in
+      (match fit_trace o (gb fx) c (gn nopt) (mk_sel (gil sidx) (gil skind) (gv sval)) (mk_sill (gi sillk) (gf sillv))
+               (mk_anis (gi ak) (gv av)) (gb isdir) evs (mk_state (gf vr) (gf l) (gf n) (gv opt) (gv an)) with
+       | Ok sts -> VT [VZ 0; VM (List.map (fun s -> s.m_varraw :: s.m_len :: s.m_nug :: (s.m_opt @ s.m_anis)) sts)]
+       | Err e -> VT [VZ (int_of_nat e)])
+    | _ -> failwith "arity");
   (* fit_init: same head, then dflt | given idx val | ganis flag vals | mean_x mean_y | state *)
   "fit_init", (function
     | [fx; blo; bhi; bloc; bhic; dim; latlon; rescale; nopt; sidx; skind; sval; sillk; sillv; ak; av; isdir;
